@@ -93,10 +93,11 @@ def code_wrapper(magic_version, consts_stream):
         out += b"(" + le32(0)  # freevars
         out += b"(" + le32(0)  # cellvars
     fn = b"<hostile>"
-    out += b"s" + le32(len(fn)) + fn  # filename
-    out += b"s" + le32(1) + b"f"  # name
+    tcode = b"u" if v >= (3, 0) else b"s"  # names are text in Python 3, byte strings in Python 2
+    out += tcode + le32(len(fn)) + fn  # filename
+    out += tcode + le32(1) + b"f"  # name
     if v >= (3, 11):
-        out += b"s" + le32(1) + b"f"  # qualname
+        out += tcode + le32(1) + b"f"  # qualname
     out += le32(1)  # firstlineno
     out += b"s" + le32(0)  # lnotab / linetable
     if v >= (3, 11):
